@@ -1,9 +1,643 @@
-//! group `rdata` — stub (not built yet).
-#![allow(unused)]
+//! group `rdata` — C18, C19: src/rr/rdata/*.rs and src/rr/rdata_set.rs through the public API
+//! (`Rdata::{validate, read, equals, components}`, `RdataSetOwned::from_iter`, `RdataSet::iter`).
 use crate::common::*;
+use quandary::class::Class;
+use quandary::rr::rdata::{Component, ReadRdataError};
+use quandary::rr::{Rdata, RdataSetOwned, Type};
 
-pub fn run(_op: &str, _a: &[&str]) -> Option<String> {
-    None
+fn err(e: ReadRdataError) -> String {
+    format!("err:{:?}", e)
 }
 
-pub fn gen(_rng: &mut Rng, _thorough: bool, _em: &mut Emitter) {}
+fn ct(c: &str, t: &str) -> Option<(Class, Type)> {
+    Some((Class::from(c.parse::<u16>().ok()?), Type::from(t.parse::<u16>().ok()?)))
+}
+
+fn rdata(b: &[u8]) -> Option<&Rdata> {
+    <&Rdata>::try_from(b).ok()
+}
+
+fn list(items: Vec<String>) -> String {
+    if items.is_empty() {
+        ".".to_string()
+    } else {
+        items.join(",")
+    }
+}
+
+fn parse_list(s: &str) -> Option<Vec<Vec<u8>>> {
+    if s == "." {
+        return Some(vec![]);
+    }
+    s.split(',').map(unhex).collect()
+}
+
+pub fn run(op: &str, a: &[&str]) -> Option<String> {
+    let bad = || Some("bad-op".to_string());
+    Some(match (op, a) {
+        ("rv", [c, t, r]) => {
+            let (Some((class, ty)), Some(buf)) = (ct(c, t), unhex(r)) else { return bad() };
+            let Some(rd) = rdata(&buf) else { return bad() };
+            guarded(|| match rd.validate(class, ty) {
+                Ok(()) => "ok".to_string(),
+                Err(e) => err(e),
+            })
+        }
+        ("rr", [c, t, m, cur, len]) => {
+            let (Some((class, ty)), Some(msg), Ok(cursor), Ok(rdlength)) =
+                (ct(c, t), unhex(m), cur.parse::<usize>(), len.parse::<u16>())
+            else {
+                return bad();
+            };
+            guarded(|| match Rdata::read(class, ty, &msg, cursor, rdlength) {
+                Ok(r) => format!("ok {}", hex(r.octets())),
+                Err(e) => err(e),
+            })
+        }
+        ("rcomp", [c, t, r]) => {
+            let (Some((class, ty)), Some(buf)) = (ct(c, t), unhex(r)) else { return bad() };
+            let Some(rd) = rdata(&buf) else { return bad() };
+            guarded(|| {
+                let mut out = Vec::new();
+                for comp in rd.components(class, ty) {
+                    match comp {
+                        Ok(Component::CompressibleName(n)) => out.push(format!("C:{}", hex(n.wire_repr()))),
+                        Ok(Component::UncompressibleName(n)) => out.push(format!("U:{}", hex(n.wire_repr()))),
+                        Ok(Component::Other(o)) => out.push(format!("O:{}", hex(o))),
+                        Err(e) => return err(e),
+                    }
+                    if out.len() > 16 {
+                        return "hang".to_string();
+                    }
+                }
+                format!("ok {}", list(out))
+            })
+        }
+        ("req", [c, t, x, y]) => {
+            let (Some((class, ty)), Some(x), Some(y)) = (ct(c, t), unhex(x), unhex(y)) else { return bad() };
+            let (Some(x), Some(y)) = (rdata(&x), rdata(&y)) else { return bad() };
+            guarded(|| format!("ok {}", x.equals(y, class, ty)))
+        }
+        ("req3", [c, t, x, y, z]) => {
+            let (Some((class, ty)), Some(x), Some(y), Some(z)) = (ct(c, t), unhex(x), unhex(y), unhex(z)) else {
+                return bad();
+            };
+            let (Some(x), Some(y), Some(z)) = (rdata(&x), rdata(&y), rdata(&z)) else { return bad() };
+            guarded(|| {
+                let mut s = String::from("ok ");
+                for (p, q) in [(x, y), (y, x), (y, z), (z, y), (x, z), (z, x), (x, x), (y, y), (z, z)] {
+                    s.push(if p.equals(q, class, ty) { '1' } else { '0' });
+                }
+                s
+            })
+        }
+        ("rset", [c, t, l]) => {
+            let (Some((class, ty)), Some(items)) = (ct(c, t), parse_list(l)) else { return bad() };
+            let mut rds = Vec::new();
+            for i in &items {
+                let Some(r) = rdata(i) else { return bad() };
+                rds.push(r);
+            }
+            guarded(|| match RdataSetOwned::from_iter(class, ty, rds.iter().copied()) {
+                None => "ok none".to_string(),
+                Some(set) => format!("ok {}", list(set.iter().map(|r| hex(r.octets())).collect())),
+            })
+        }
+        _ => return None,
+    })
+}
+
+// ------------------------------------------------------------------------------------------
+// generators
+// ------------------------------------------------------------------------------------------
+
+#[derive(Clone, Copy, PartialEq, Debug)]
+enum F {
+    Name,
+    Fixed(usize),
+}
+
+#[derive(Clone, Copy, PartialEq, Debug)]
+enum Kind {
+    Layout(&'static [F]),
+    Len(usize),   // exactly n octets
+    AtLeast(usize),
+    Hinfo,
+    Txt,
+    Opt,
+    Tsig,
+    Opaque,
+}
+
+/// the 20 class/type rows of the property + other classes + unknown types (generator vocabulary,
+/// written from the RFCs — not read from the code under test)
+const ROWS: &[(u16, u16, Kind)] = &[
+    (1, 1, Kind::Len(4)),
+    (1, 2, Kind::Layout(&[F::Name])),
+    (1, 3, Kind::Layout(&[F::Name])),
+    (1, 4, Kind::Layout(&[F::Name])),
+    (1, 5, Kind::Layout(&[F::Name])),
+    (1, 6, Kind::Layout(&[F::Name, F::Name, F::Fixed(20)])),
+    (1, 7, Kind::Layout(&[F::Name])),
+    (1, 8, Kind::Layout(&[F::Name])),
+    (1, 9, Kind::Layout(&[F::Name])),
+    (1, 10, Kind::Opaque),
+    (1, 11, Kind::AtLeast(5)),
+    (1, 12, Kind::Layout(&[F::Name])),
+    (1, 13, Kind::Hinfo),
+    (1, 14, Kind::Layout(&[F::Name, F::Name])),
+    (1, 15, Kind::Layout(&[F::Fixed(2), F::Name])),
+    (1, 16, Kind::Txt),
+    (1, 28, Kind::Len(16)),
+    (1, 33, Kind::Layout(&[F::Fixed(6), F::Name])),
+    (1, 41, Kind::Opt),
+    (1, 250, Kind::Tsig),
+    (3, 1, Kind::Layout(&[F::Name, F::Fixed(2)])),
+    // class-independent types in other classes
+    (3, 2, Kind::Layout(&[F::Name])),
+    (4, 6, Kind::Layout(&[F::Name, F::Name, F::Fixed(20)])),
+    (255, 15, Kind::Layout(&[F::Fixed(2), F::Name])),
+    (3, 16, Kind::Txt),
+    (0, 14, Kind::Layout(&[F::Name, F::Name])),
+    (3, 250, Kind::Tsig),
+    (4, 41, Kind::Opt),
+    (65535, 13, Kind::Hinfo),
+    // class-specific types outside their class: opaque
+    (4, 1, Kind::Opaque),
+    (3, 11, Kind::Opaque),
+    (3, 28, Kind::Opaque),
+    (3, 33, Kind::Opaque),
+    (0, 33, Kind::Opaque),
+    (2, 1, Kind::Opaque),
+    // unknown types
+    (1, 0, Kind::Opaque),
+    (1, 17, Kind::Opaque),
+    (1, 27, Kind::Opaque),
+    (1, 29, Kind::Opaque),
+    (1, 32, Kind::Opaque),
+    (1, 34, Kind::Opaque),
+    (1, 99, Kind::Opaque),
+    (1, 249, Kind::Opaque),
+    (1, 251, Kind::Opaque),
+    (1, 255, Kind::Opaque),
+    (3, 65535, Kind::Opaque),
+];
+
+const N_MAIN: usize = 21; // the property's 20 rows + CH A come first
+
+const ALPHABET: [u8; 14] = [0, 1, 2, 3, 5, 62, 63, 64, 0xbf, 0xc0, 0xc1, 0xff, b'a', b'A'];
+const WORDS: [&[u8]; 8] = [b"a", b"b", b"ab", b"www", b"example", b"com", b"x-1", b"mail"];
+
+fn word(rng: &mut Rng) -> Vec<u8> {
+    let mut w = rng.pick(&WORDS).to_vec();
+    match rng.below(4) {
+        0 => w.make_ascii_uppercase(),
+        1 => {
+            let i = rng.below(w.len());
+            w[i] = w[i].to_ascii_uppercase();
+        }
+        _ => {}
+    }
+    if rng.chance(1, 24) {
+        // octets around the letters: '@' (0x40), '[' (0x5b), '`' (0x60), '{' (0x7b), high bit
+        let i = rng.below(w.len());
+        w[i] = *rng.pick(&[0x40u8, 0x5b, 0x60, 0x7b, 0xc1, 0xe1, 0x00, 0x2e]);
+    }
+    w
+}
+
+/// a valid uncompressed name as a list of labels (without the root)
+fn labels(rng: &mut Rng) -> Vec<Vec<u8>> {
+    match rng.below(40) {
+        0 => vec![],                                              // root
+        1 => vec![vec![b'x'; 63]],                                // longest label
+        2 => vec![vec![b'l'; 63], vec![b'M'; 63], vec![b'n'; 63], vec![b'o'; 61]], // 255 octets
+        3 => (0..127).map(|_| vec![b'z']).collect(),              // 128 labels with the root: 255 octets
+        _ => (0..rng.range(1, 3)).map(|_| word(rng)).collect(),
+    }
+}
+
+fn wire(ls: &[Vec<u8>]) -> Vec<u8> {
+    let mut w = Vec::new();
+    for l in ls {
+        w.push(l.len() as u8);
+        w.extend_from_slice(l);
+    }
+    w.push(0);
+    w
+}
+
+/// an invalid "name"
+fn bad_name(rng: &mut Rng) -> Vec<u8> {
+    match rng.below(8) {
+        0 => vec![],                                                   // nothing
+        1 => vec![3, b'a', b'b'],                                      // truncated label
+        2 => vec![1, b'a'],                                            // no root
+        3 => { let mut w = vec![64]; w.extend(vec![b'y'; 64]); w.push(0); w }       // label too long
+        4 => vec![0xc0, 0x00],                                         // pointer in uncompressed data
+        5 => vec![1, b'a', 0xc0, 0x00],
+        6 => wire(&[vec![b'l'; 63], vec![b'm'; 63], vec![b'n'; 63], vec![b'o'; 62]]), // 256 octets
+        _ => (0..128).flat_map(|_| vec![1u8, b'z']).chain(std::iter::once(0)).collect(), // 129 labels, 257 octets
+    }
+}
+
+fn char_string(rng: &mut Rng) -> Vec<u8> {
+    let n = match rng.below(12) {
+        0 => 0,
+        1 => 255,
+        2 => 254,
+        _ => rng.below(9),
+    };
+    let mut s = vec![n as u8];
+    for _ in 0..n {
+        s.push(if rng.chance(1, 6) { rng.byte() } else { b'a' + rng.below(26) as u8 });
+    }
+    s
+}
+
+fn bytes(rng: &mut Rng, n: usize) -> Vec<u8> {
+    (0..n).map(|_| if rng.chance(1, 3) { *rng.pick(&ALPHABET) } else { rng.byte() }).collect()
+}
+
+fn option(rng: &mut Rng) -> Vec<u8> {
+    let n = match rng.below(10) {
+        0 => 0,
+        1 => 256,
+        2 => 300,
+        _ => rng.below(12),
+    };
+    let mut o = vec![rng.byte(), rng.byte(), (n >> 8) as u8, n as u8];
+    o.extend(bytes(rng, n));
+    o
+}
+
+fn tsig(rng: &mut Rng) -> Vec<u8> {
+    let mut r = wire(&labels(rng));
+    r.extend(bytes(rng, 8));
+    let mac = *rng.pick(&[0usize, 1, 16, 20, 32, 255, 256, 300]);
+    r.extend([(mac >> 8) as u8, mac as u8]);
+    r.extend(bytes(rng, mac));
+    r.extend(bytes(rng, 4));
+    let other = *rng.pick(&[0usize, 0, 0, 6, 1, 256]);
+    r.extend([(other >> 8) as u8, other as u8]);
+    r.extend(bytes(rng, other));
+    r
+}
+
+/// well-formed RDATA of a kind
+fn valid(rng: &mut Rng, k: Kind) -> Vec<u8> {
+    match k {
+        Kind::Layout(fs) => {
+            let mut r = Vec::new();
+            for f in fs {
+                match f {
+                    F::Name => r.extend(wire(&labels(rng))),
+                    F::Fixed(n) => r.extend(if rng.chance(1, 2) { vec![0; *n] } else { bytes(rng, *n) }),
+                }
+            }
+            r
+        }
+        Kind::Len(n) => bytes(rng, n),
+        Kind::AtLeast(n) => { let extra = rng.below(6); bytes(rng, n + extra) }
+        Kind::Hinfo => { let mut r = char_string(rng); r.extend(char_string(rng)); r }
+        Kind::Txt => { let mut r = Vec::new(); for _ in 0..rng.range(1, 4) { r.extend(char_string(rng)); } r }
+        Kind::Opt => { let mut r = Vec::new(); for _ in 0..rng.below(4) { r.extend(option(rng)); } r }
+        Kind::Tsig => tsig(rng),
+        Kind::Opaque => { let n = rng.below(12); bytes(rng, n) }
+    }
+}
+
+/// near-valid: ±1 octet, wrong counts, bad embedded names, case changes
+fn mutate(rng: &mut Rng, k: Kind, mut r: Vec<u8>) -> Vec<u8> {
+    match rng.below(14) {
+        0 => r.push(rng.byte()),
+        1 => { r.pop(); }
+        2 => { if !r.is_empty() { r.remove(0); } }
+        3 => { let n = rng.below(r.len() + 1); r.truncate(n); }
+        4 => { let n = rng.range(1, 5); r.extend(bytes(rng, n)); }
+        5 => { if !r.is_empty() { let i = rng.below(r.len()); r[i] = *rng.pick(&ALPHABET); } }
+        6 => { if !r.is_empty() { let i = rng.below(r.len()); r[i] ^= 0x20; } }
+        7 => { let c = r.clone(); r.extend(c); }
+        8 => r.clear(),
+        9 => r.insert(0, 0),
+        10 | 11 => {
+            // a bad embedded name in place of a good one
+            if let Kind::Layout(fs) = k {
+                let which = rng.below(fs.iter().filter(|f| **f == F::Name).count().max(1));
+                let mut seen = 0;
+                r.clear();
+                for f in fs {
+                    match f {
+                        F::Name => {
+                            r.extend(if seen == which { bad_name(rng) } else { wire(&labels(rng)) });
+                            seen += 1;
+                        }
+                        F::Fixed(n) => r.extend(bytes(rng, *n)),
+                    }
+                }
+            } else {
+                r.push(0);
+            }
+        }
+        12 => {
+            // wrong count of strings / options / one more fixed octet
+            match k {
+                Kind::Hinfo | Kind::Txt => r.extend(char_string(rng)),
+                Kind::Opt => r.extend(option(rng)),
+                _ => r.push(0),
+            }
+        }
+        _ => {
+            // length field off by one
+            match k {
+                Kind::Hinfo | Kind::Txt => { if !r.is_empty() { r[0] = r[0].wrapping_add(1); } }
+                Kind::Opt => { if r.len() >= 4 { r[3] = r[3].wrapping_add(1); } }
+                Kind::Tsig => { if let Some(i) = r.iter().position(|b| *b == 0) { if r.len() > i + 10 { r[i + 10] = r[i + 10].wrapping_add(1); } } }
+                _ => { r.pop(); r.pop(); }
+            }
+        }
+    }
+    r.truncate(4000);
+    r
+}
+
+fn emit(em: &mut Emitter, case: String) {
+    let mut it = case.split(' ');
+    let op = it.next().unwrap();
+    let args: Vec<&str> = it.collect();
+    let r = run(op, &args).unwrap_or_else(|| "bad-op".into());
+    em.emit(&case, &r);
+}
+
+fn row(rng: &mut Rng) -> (u16, u16, Kind) {
+    if rng.chance(3, 4) { ROWS[rng.below(N_MAIN)] } else { *rng.pick(ROWS) }
+}
+
+/// rows whose RDATA embeds names (for equality and the read boundary cases)
+fn name_rows() -> Vec<(u16, u16, Kind)> {
+    ROWS.iter().copied().filter(|r| matches!(r.2, Kind::Layout(_))).collect()
+}
+
+// ---- validate / components ----
+
+fn gen_validate(rng: &mut Rng, n: usize, em: &mut Emitter) {
+    // every row on a few fixed inputs first
+    for &(c, t, k) in ROWS {
+        for r in [vec![], vec![0], vec![0, 0], vec![0; 4], vec![0; 16], vec![0, 0, 0], vec![0; 7], vec![0; 22], vec![0xc0, 0]] {
+            emit(em, format!("rv {} {} {}", c, t, hex(&r)));
+            emit(em, format!("rcomp {} {} {}", c, t, hex(&r)));
+        }
+        let _ = k;
+    }
+    for _ in 0..n {
+        let (c, t, k) = row(rng);
+        let mut r = valid(rng, k);
+        if rng.chance(1, 2) {
+            r = mutate(rng, k, r);
+        }
+        // sometimes interpret under a different row (type confusion)
+        let (c2, t2) = if rng.chance(1, 8) { let x = *rng.pick(ROWS); (x.0, x.1) } else { (c, t) };
+        emit(em, format!("rv {} {} {}", c2, t2, hex(&r)));
+        if rng.chance(1, 2) {
+            emit(em, format!("rcomp {} {} {}", c2, t2, hex(&r)));
+        }
+    }
+    // large TXT / OPT / opaque RDATA up to the 65535 cap
+    for len in [65535usize, 65534, 40000] {
+        let mut r = Vec::new();
+        while r.len() + 256 <= len { r.push(255); r.extend(vec![b'q'; 255]); }
+        let rest = len - r.len();
+        if rest > 0 { r.push((rest - 1) as u8); r.extend(vec![b'r'; rest - 1]); }
+        emit(em, format!("rv 1 16 {}", hex(&r)));
+        emit(em, format!("rv 1 10 {}", hex(&r)));
+        emit(em, format!("rv 1 41 {}", hex(&r)));
+    }
+}
+
+// ---- read ----
+
+/// a message prefix holding names that later pointers may target; returns label start offsets
+fn prefix(rng: &mut Rng) -> (Vec<u8>, Vec<usize>) {
+    let mut msg = Vec::new();
+    let mut targets = Vec::new();
+    let pre = rng.below(13);
+    for _ in 0..pre { msg.push(rng.byte()); }
+    for _ in 0..rng.below(3) {
+        let ls = labels(rng);
+        if ls.len() > 8 { continue; }
+        for l in &ls {
+            targets.push(msg.len());
+            msg.push(l.len() as u8);
+            msg.extend_from_slice(l);
+        }
+        targets.push(msg.len());
+        msg.push(0);
+    }
+    (msg, targets)
+}
+
+/// one name inside the RDATA region: uncompressed, compressed towards `targets`, or broken
+fn region_name(rng: &mut Rng, msg: &mut Vec<u8>, targets: &[usize], region_start: usize) {
+    let style = rng.below(16);
+    let ls = if style == 1 { vec![] } else { labels(rng) };
+    let ls: Vec<Vec<u8>> = if ls.len() > 20 && style >= 2 && style <= 9 { vec![] } else { ls };
+    let ptr = |t: usize| vec![0xc0 | ((t.min(0x3fff) >> 8) as u8), t as u8];
+    match style {
+        0 | 1 | 10 | 11 => msg.extend(wire(&ls)),
+        2..=7 if !targets.is_empty() => {
+            // labels then a pointer to an earlier label start
+            let k = rng.below(ls.len() + 1);
+            for l in &ls[..k] { msg.push(l.len() as u8); msg.extend_from_slice(l); }
+            let t = *rng.pick(targets);
+            msg.extend(ptr(t));
+        }
+        8 => {
+            // pointer to the region itself / forward / itself
+            let here = msg.len();
+            let t = *rng.pick(&[region_start, here, here + 2, here.saturating_sub(1)]);
+            msg.extend(ptr(t));
+        }
+        9 => { let t = rng.below(msg.len() + 6); msg.extend(ptr(t)); }
+        12 => msg.extend(bad_name(rng)),
+        13 => { let mut w = wire(&ls); w.pop(); msg.extend(w); }     // root label missing
+        14 => { msg.push(0xc0); }                                     // half a pointer
+        _ => msg.extend(wire(&ls)),
+    }
+}
+
+fn gen_read(rng: &mut Rng, n: usize, em: &mut Emitter) {
+    let names = name_rows();
+    for _ in 0..n {
+        let (c, t, k) = if rng.chance(2, 3) { *rng.pick(&names) } else { row(rng) };
+        let (mut msg, targets) = prefix(rng);
+        let cursor = msg.len();
+        let mut bounds = vec![0usize]; // field boundaries relative to cursor
+        match k {
+            Kind::Layout(fs) => {
+                for f in fs {
+                    match f {
+                        F::Name => region_name(rng, &mut msg, &targets, cursor),
+                        F::Fixed(n) => { let b = bytes(rng, *n); msg.extend(b); }
+                    }
+                    bounds.push(msg.len() - cursor);
+                }
+            }
+            _ => {
+                let mut r = valid(rng, k);
+                if rng.chance(1, 3) { r = mutate(rng, k, r); }
+                r.truncate(600);
+                msg.extend(r);
+                bounds.push(msg.len() - cursor);
+            }
+        }
+        let rdlen = msg.len() - cursor;
+        let suffix = rng.below(4);
+        for _ in 0..suffix { msg.push(rng.byte()); }
+        if rng.chance(1, 10) && !msg.is_empty() {
+            let i = rng.below(msg.len());
+            msg[i] = *rng.pick(&ALPHABET);
+        }
+        let h = hex(&msg);
+        // RDLENGTH: exact, ±1, every field boundary (an embedded name then starts exactly at
+        // cursor + RDLENGTH), 0, to the end of the message and one past it
+        let mut lens: Vec<usize> = vec![rdlen, rdlen + 1, rdlen.saturating_sub(1), 0, msg.len() - cursor, msg.len() - cursor + 1];
+        lens.extend(bounds.iter().copied());
+        lens.extend(bounds.iter().map(|b| b + 1));
+        lens.sort();
+        lens.dedup();
+        for l in lens {
+            if l <= 65535 {
+                emit(em, format!("rr {} {} {} {} {}", c, t, h, cursor, l));
+            }
+        }
+        // cursor variations
+        for cur in [cursor + 1, cursor.saturating_sub(1), msg.len(), msg.len() + 1, 0] {
+            if rng.chance(1, 3) {
+                let l = if rng.chance(1, 2) { rdlen } else { msg.len().saturating_sub(cur) };
+                emit(em, format!("rr {} {} {} {} {}", c, t, h, cur, l.min(65535)));
+            }
+        }
+        // the same region read as another type
+        if rng.chance(1, 3) {
+            let (c2, t2, _) = row(rng);
+            emit(em, format!("rr {} {} {} {} {}", c2, t2, h, cursor, rdlen.min(65535)));
+        }
+    }
+    // the boundary cases of the repaired defect, spelled out: name starting exactly at
+    // cursor + RDLENGTH (RDLENGTH 0 NS-like, 2 MX, 6 SRV, |mname| SOA/MINFO), at the end of the
+    // message and inside it
+    for &(c, t, k) in ROWS {
+        for (m, cur, len) in [("-", 0usize, 0usize), ("00", 1, 0), ("0000", 0, 2), ("000000000000", 0, 6),
+                              ("016100", 0, 3), ("00", 0, 1), ("0001", 0, 1), ("ffffffffffffffff016100", 8, 0),
+                              ("0000016100", 0, 2), ("000000000000016100", 0, 6), ("016100016200", 0, 3)] {
+            emit(em, format!("rr {} {} {} {} {}", c, t, m, cur, len));
+        }
+        let _ = k;
+    }
+    // `cursor + rdlength` overflowing usize (no constraint from the property: such a cursor is not
+    // an offset into any message); checks the model's overflow panic against the real code
+    for (cur, len) in [(usize::MAX, 1usize), (usize::MAX, 0), (usize::MAX - 65534, 65535), (usize::MAX - 65535, 65535), (usize::MAX - 3, 4)] {
+        for (c, t) in [(1u16, 1u16), (1, 2), (1, 15), (1, 99)] {
+            emit(em, format!("rr {} {} 00000000 {} {}", c, t, cur, len));
+        }
+    }
+}
+
+/// thorough: every (cursor, rdlength) pair on short messages for every name-bearing row
+fn gen_read_exhaustive(rng: &mut Rng, n_msgs: usize, rows: &[(u16, u16, Kind)], em: &mut Emitter) {
+    const SYMS: [u8; 9] = [0, 1, 2, 0xc0, 0xc1, b'a', 63, 64, 0xff];
+    for i in 0..n_msgs {
+        let len = if i < 13 { i } else { rng.range(1, 12) };
+        let mut msg: Vec<u8> = (0..len).map(|_| *rng.pick(&SYMS)).collect();
+        // bias towards parsable content: small labels, pointers to small offsets
+        for j in 0..len {
+            if msg[j] == 0xc0 && j + 1 < len && rng.chance(2, 3) { msg[j + 1] = rng.below(len) as u8; }
+        }
+        let h = hex(&msg);
+        for &(c, t, _) in rows {
+            for cur in 0..=len + 1 {
+                for l in 0..=len + 1 {
+                    emit(em, format!("rr {} {} {} {} {}", c, t, h, cur, l));
+                }
+            }
+        }
+    }
+}
+
+// ---- equality, sets ----
+
+/// a pool of RDATA for one row: a few base values, case variants, junk, truncations
+fn pool(rng: &mut Rng, k: Kind) -> Vec<Vec<u8>> {
+    let mut p: Vec<Vec<u8>> = Vec::new();
+    for _ in 0..rng.range(1, 3) {
+        let base = valid(rng, k);
+        p.push(base.clone());
+        for _ in 0..rng.below(4) {
+            let mut v = base.clone();
+            match rng.below(10) {
+                0 | 1 | 2 => { // flip the case of letters
+                    for b in v.iter_mut() { if b.is_ascii_alphabetic() && rng.chance(1, 2) { *b ^= 0x20; } }
+                }
+                3 => { for b in v.iter_mut() { if b.is_ascii_alphabetic() { *b = b.to_ascii_uppercase(); } } }
+                4 => v.push(0xff),                                        // trailing junk
+                5 => { v.pop(); }                                         // truncation
+                6 => { for b in v.iter_mut() { if b.is_ascii_alphabetic() { *b ^= 0x20; } } v.push(0xff); }
+                7 => { if !v.is_empty() { let i = rng.below(v.len()); v[i] ^= 0x20; } } // any octet (also non-letters, lengths)
+                8 => { if !v.is_empty() { let i = rng.below(v.len()); v[i] = v[i].wrapping_add(1); } }
+                _ => v = mutate(rng, k, v),
+            }
+            p.push(v);
+        }
+    }
+    if rng.chance(1, 3) { let m = { let v = valid(rng, k); mutate(rng, k, v) }; p.push(m); }
+    p
+}
+
+fn gen_equality(rng: &mut Rng, n: usize, thorough: bool, em: &mut Emitter) {
+    let names = name_rows();
+    // the recorded asymmetry witness (D08) and friends, for every name-bearing row
+    for &(c, t, _) in &names {
+        for (a, b) in [("016100", "016100ff"), ("016100ff", "016100"), ("016100", "014100"), ("016100ff", "014100ff"),
+                       ("-", "-"), ("-", "00"), ("00", "00"), ("0000016100", "0000014100"), ("0000016100", "0001014100")] {
+            emit(em, format!("req {} {} {} {}", c, t, a, b));
+        }
+    }
+    for _ in 0..n {
+        let (c, t, k) = match rng.below(10) {
+            0..=6 => *rng.pick(&names),
+            7 => *rng.pick(&[ROWS[0], ROWS[15], ROWS[9], ROWS[12]]), // A, TXT, NULL, HINFO
+            _ => row(rng),
+        };
+        let p = pool(rng, k);
+        let a = rng.pick(&p).clone();
+        let b = rng.pick(&p).clone();
+        let d = rng.pick(&p).clone();
+        match rng.below(if thorough { 3 } else { 4 }) {
+            0 => emit(em, format!("req {} {} {} {}", c, t, hex(&a), hex(&b))),
+            1 | 3 => emit(em, format!("req3 {} {} {} {} {}", c, t, hex(&a), hex(&b), hex(&d))),
+            _ => {
+                let m = rng.range(0, 7);
+                let items: Vec<String> = (0..m).map(|_| { let i = rng.below(p.len()); hex(&p[i]) }).collect();
+                emit(em, format!("rset {} {} {}", c, t, list(items)));
+            }
+        }
+    }
+    // sets with a large member (length prefix 0xffff) and an empty member
+    let big = vec![7u8; 65535];
+    emit(em, format!("rset 1 10 {},{},-,{},-", hex(&big), hex(&big[..300]), hex(&big)));
+    emit(em, format!("rset 1 16 {},{}", hex(&big[..256]), hex(&big[..255])));
+}
+
+pub fn gen(rng: &mut Rng, thorough: bool, em: &mut Emitter) {
+    let scale = if thorough { 20 } else { 1 };
+    gen_validate(rng, 12_000 * scale, em);
+    gen_read(rng, 3_000 * scale, em);
+    gen_equality(rng, 10_000 * scale, thorough, em);
+    let names = name_rows();
+    if thorough {
+        gen_read_exhaustive(rng, 400, &names, em);
+    } else {
+        let few: Vec<(u16, u16, Kind)> = [1usize, 5, 13, 14, 17, 20].iter().map(|i| ROWS[*i]).collect();
+        gen_read_exhaustive(rng, 40, &few, em);
+    }
+}
